@@ -17,7 +17,7 @@ class C19(core.Check):
     quick_cases = 6000
     thorough_cases = 60000
     rule = ('seeded calls of the real feature_mixup (75%) and of ExcelFormer.forward(mixup_encoded=True) (25%, one '
-            'ExcelFormerConv layer, real encoder): B 0-6, F 1-5, D 1-4 (forward: 2-4), num_classes 1-4, mode '
+            'ExcelFormerConv layer, real encoder; half of them as the second mixup call of the same model instance after a frame with other mi_scores): B 0-6, F 1-5, D 1-4 (forward: 2-4), num_classes 1-4, mode '
             'None/feature/hidden, beta in {0.1,0.5,1,2,5}, float32 and float64, dyadic feature values with '
             'deliberate own/partner coincidences, mi scores >= 0 with zeros and positive sum, ~7% calls outside '
             'the domain (num_classes 0, missing / wrongly sized mi_scores, float or out-of-range class targets, '
@@ -68,6 +68,9 @@ class C19(core.Check):
             else:
                 case['feat'] = [[_dy(rng) for _ in range(F)] for _ in range(B)]
                 case['heads'] = 2 if D % 2 == 0 and rng.random() < 0.5 else 1
+                # history: the observed call is the SECOND mixup forward of the same model instance; the first one
+                # saw a frame with other mutual-information scores (per-call wiring must not remember them)
+                case['warm'] = rng.random() < 0.5
             # a minority of calls outside the domain
             r = rng.random()
             if r < 0.07:
@@ -144,6 +147,14 @@ class C19(core.Check):
             lambda m, a, out: seen.__setitem__('enc', out[0].detach().clone()))
         h2 = model.excelformer_convs[0].register_forward_pre_hook(
             lambda m, a: seen.__setitem__('conv_in', a[0].detach().clone()))
+        if case.get('warm') and B > 0 and y is not None:
+            tf0 = torch_frame.TensorFrame({stype.numerical: feat.flip(0) + 1.0}, {stype.numerical: names}, y=y)
+            tf0.mi_scores = torch.tensor([float((3 * j) % 5 + 1) for j in range(F)], dtype=dt)
+            try:
+                with torch.no_grad():
+                    model(tf0, mixup_encoded=True)
+            except Exception:   # noqa  (an out-of-domain target fails here exactly as in the observed call)
+                pass
         try:
             with torch.no_grad(), mixup.capture_draws(rec):
                 out, yo = model(tf, mixup_encoded=True)
